@@ -20,6 +20,7 @@ import (
 type C03Job struct {
 	Cfg      rig.Config `json:"cfg"`
 	Contents []string   `json:"contents"`
+	Patterns []int      `json:"patterns,omitempty"` // write patterns (0 single Write, 1 Write+Sync+Write, 2 WriteString x2, 3 WriteAt back-fill); default {0}
 	Codec    bool       `json:"codec,omitempty"` // component level: non-regular codec parameters + tape writer padding
 }
 
@@ -78,15 +79,20 @@ func RunC03(env *Env, job *C03Job) *C03Res {
 			return
 		}
 		written := map[int][]byte{}
+		patterns := job.Patterns
+		if len(patterns) == 0 {
+			patterns = []int{0}
+		}
 		for i, spec := range job.Contents {
 			data := ops.Content(spec)
 			p := fmt.Sprintf("/f%d", i)
 			lc := lenClass(len(data), cfg.RecordSize)
+			pat := patterns[i%len(patterns)]
 			ph.Name = "write " + spec
-			err, pan := Guard(func() error { return ops.ExecImpl(st, ops.Op{K: "put", P: p, C: spec}) })
+			err, pan := Guard(func() error { return ops.ExecImpl(st, ops.Op{K: "putp", P: p, C: spec, N: pat}) })
 			vsync.Quiesce()
 			res.Evals++
-			res.Distinct = append(res.Distinct, fmt.Sprintf("%s|rs=%d|wc=%s|len=%s|fill=%c", cell, cfg.RecordSize, cfg.WriteCache, lc, fillOf(spec)))
+			res.Distinct = append(res.Distinct, fmt.Sprintf("%s|rs=%d|wc=%s|len=%s|fill=%c|pattern=%d", cell, cfg.RecordSize, cfg.WriteCache, lc, fillOf(spec), pat))
 			if pan != "" {
 				viol(fmt.Sprintf("C03|write-panic|%s|len=%s", pipe, lc), fmt.Sprintf("config %s, content %s: %s", cfg, spec, pan))
 				continue
@@ -119,7 +125,7 @@ func RunC03(env *Env, job *C03Job) *C03Res {
 			if len(data) > 0 {
 				lc = "n>0" // classes only matter where the unchanged tree misbehaves (empty payloads)
 			}
-			where := fmt.Sprintf("config %s, content %s (%d bytes)", cfg, spec, len(data))
+			where := fmt.Sprintf("config %s, content %s (%d bytes), write pattern %d", cfg, spec, len(data), patterns[i%len(patterns)])
 			// (1) size
 			ph.Name = "stat " + spec
 			fi, err := ro.FS.Stat(p)
